@@ -23,7 +23,7 @@ VARIANTS = {
     "san": ("clang", "clang++",
             "-O1 -g -fno-omit-frame-pointer -fsanitize=address,undefined "
             "-fno-sanitize-recover=undefined -fno-sanitize=vptr", []),
-    "tsabi": ("clang", "clang++", "-O1 -g -fsanitize=thread -fno-pie", []),
+    "tsabi": ("clang", "clang++", "-O2 -fsanitize=thread -fno-pie", []),
     "tsan": ("clang", "clang++", "-O1 -g -fsanitize=thread", []),
     "f77": ("gcc", "g++", "-O2 -DNDEBUG", ["-DIPHREEQC_ENABLE_MODULE=OFF"]),
 }
